@@ -204,9 +204,36 @@ def constant_state(fn, index, classes=None):
                 if isinstance(st_, ast.Assign) and isinstance(st_.value, ast.Constant) and isinstance(st_.value.value, (int, float)) \
                         and not isinstance(st_.value.value, bool):
                     for t_ in st_.targets:
-                        if isinstance(t_, ast.Attribute) and isinstance(t_.value, ast.Name) and t_.value.id == "self" and t_.attr in reads:
+                        if isinstance(t_, ast.Attribute) and isinstance(t_.value, ast.Name) and t_.value.id == "self" and t_.attr in reads \
+                                and not _overwritten_later(f_.node, st_, t_.attr):
                             out[f"self.{t_.attr}"] = SV("scal", [Poly.const(st_.value.value)])
     return out
+
+
+def _overwritten_later(fn_node, store, attr):
+    """the constant store is a placeholder: an unconditional store into the same attribute follows it in the same block or
+    in a block that encloses it (then no history keeps the constant)."""
+    def stores_attr(s_):
+        return isinstance(s_, (ast.Assign, ast.AugAssign)) and any(
+            isinstance(t_, ast.Attribute) and isinstance(t_.value, ast.Name) and t_.value.id == "self" and t_.attr == attr
+            for t_ in (s_.targets if isinstance(s_, ast.Assign) else [s_.target]))
+
+    def visit(block):
+        """-> True if `store` lies in this block (at any depth) and is overwritten by a later statement of this block or of a block below"""
+        for i, s_ in enumerate(block):
+            if s_ is store:
+                return any(stores_attr(x) for x in block[i + 1:]), True
+            for sub in (getattr(s_, "body", None), getattr(s_, "orelse", None), getattr(s_, "finalbody", None)):
+                if isinstance(sub, list):
+                    r_ = visit(sub)
+                    if r_[1]:
+                        return (r_[0] or any(stores_attr(x) for x in block[i + 1:])), True
+            for h in getattr(s_, "handlers", []) or []:
+                r_ = visit(h.body)
+                if r_[1]:
+                    return (r_[0] or any(stores_attr(x) for x in block[i + 1:])), True
+        return False, False
+    return visit(fn_node.body)[0]
 
 
 def evaluate(fn, extra_env=None, extra_attr=None, index=None):
